@@ -146,12 +146,44 @@ def c03(tier):
                           dict(property=pid, case=cid, items=t["_items"], repaired_lines=t["_after"], flags={k: fl[k] for k in ("_N", "_Z", "_C", "_V")},
                                path_ideal=[e["addr"] - IO_BASE for e in m["want"]["_io"]], path_repaired=[e["addr"] - IO_BASE for e in m["got"]["_io"]],
                                halted=m["halted"], fault=m["fault"]))
-    if repaired < 10:
-        raise common.ToolError("vacuous: only %d layouts needed a repair" % repaired)
+    # ---- program level: loops and ifs whose bodies straddle the limit, compiled by the real compiler; the emitted
+    # functions (after its own check_branches) are measured by Asm.tla with true encoding sizes
+    from . import vocab
+    STMTS = ["arr[Y] = tab[Y];", "arr[X] = arr[X] + 1;", "s += t;", "a = b;", "arr[Y] = a;", "sarr[X] = s;", "a = arr[Y] & b;", "c = tab[X] | arr[Y];", "sarr[Y] = sarr[Y] + t;", "X = arr[Y];"]
+    FORMS = ["do { %s } while (X);", "while (a) { %s }", "if (a) { %s } b = 1;", "for (X = 0; X != b; X++) { %s }", "if (a < b) { %s } else { c = 1; }"]
+    PLACES = [None, {n: "ramchip" for n in ("a", "b", "c", "s", "t", "arr", "sarr")}]
+    pcases = []
+    for si, st in enumerate(STMTS):
+        for fi, form in enumerate(FORMS):
+            for pi, place in enumerate(PLACES):
+                ks = range(3, 34) if tier == "thorough" else range(4, 34, 3)
+                for k in ks:
+                    body = form % " ".join([st] * k)
+                    src = vocab.header(place=place) + "void main() { " + body + " }\n"
+                    pcases.append(dict(id="prog-%d-%d-%d-%d" % (si, fi, pi, k), src=src, variants=[dict(name="O1", args=["-O1"]), dict(name="O0", args=["-O0"])]))
+    pobs = common.run_harness("compile", pcases, "c03p")
+    precs, near = [], 0
+    psrc = {}
+    for c, ob in zip(pcases, pobs):
+        for o in ob:
+            if o.get("status") == "ok":
+                for r in asmcheck.func_records(c["id"], o["variant"], o):
+                    precs.append(r)
+                    psrc[r["id"]] = c["src"]
+                    if 100 <= r["size"] <= 160:
+                        near += 1
+    pavs, pres = asmcheck.run(precs, "c03p")
+    pseen = set()
+    for av in pavs:
+        if av["kind"] in ("inRange", "uniqueLabel", "definedRef") and av["f"] not in pseen:
+            pseen.add(av["f"])
+            verdict.violation("%s in compiled function %s: %s" % (av["kind"], av["f"], av["detail"]), dict(property=pid, function=av["f"], kind=av["kind"], detail=av["detail"], source=psrc[av["f"]]))
+    if repaired < 10 or near < 20:
+        raise common.ToolError("vacuous: only %d layouts needed a repair, %d compiled functions near the limit" % (repaired, near))
     cov = dict(states=rres.distinct + ares.distinct + gres.distinct, transitions=rres.generated + ares.generated + gres.generated,
                traces_validated_against_impl=len(tcases) * 8 + len(recs),
                samples=[dict(id=t["id"], layout=t["_items"], repaired=[(l.get("mn", "") + " " + l.get("op", l.get("name", ""))).strip() for l in t["_after"] if l["k"] in ("i", "l") and l.get("mn") != "NOP"][:30]) for t in tcases[:2]],
-               layouts=len(cases), layouts_needing_repair=repaired, executions_compared=len(tcases) * 8 * 2, executions_cut_at_bound=cut,
+               layouts=len(cases), layouts_needing_repair=repaired, compiled_functions_measured=len(precs), compiled_functions_of_100_to_160_bytes=near, executions_compared=len(tcases) * 8 * 2, executions_cut_at_bound=cut,
                exhaustive=True, families=sorted(set(c["fam"] for c in cases)),
                explanation="Every layout enumerated by GenLayout.tla is built through AssemblyCode::append_*, repaired by check_branches(); Asm.tla measures "
                            "every branch displacement with true encoding sizes and checks labels and size; Refine.tla runs the original (ideal, "
